@@ -288,7 +288,7 @@ pub fn check() -> Check {
     )
     .assume("static part only: the run-time clause (accepted manifests never fail with the transaction processor's id errors) needs the engine and is not decided here")
     .assume("legacy rulesets (BabylonBasicValidator, babylon_equivalent) are only held to the id rules they document: no blob, left-over, manifest-kind or command-part address checks")
-    .part(Part::new("static", 600_000, 20_000_000, 1536, static_case))
-    .part(Part::new("v1_v2only", 40_000, 1_000_000, 1024, v1_rejects_v2))
+    .part(Part::new("static", 3_000_000, 100_000_000, 1536, static_case))
+    .part(Part::new("v1_v2only", 100_000, 3_000_000, 1024, v1_rejects_v2))
     .min_nontrivial_pct(15.0)
 }
